@@ -143,13 +143,39 @@ func (fdb *fsDb) Put(ctx context.Context, key []byte, val []byte) error {
 	}
 	logg.TraceCtxf(ctx, "fs put", "key", key, "lk", lk, "flk", flk, "val", val)
 	if flk.Translation != "" {
-		err = ioutil.WriteFile(flk.Translation, val, 0600)
+		err = fdb.writeFile(flk.Translation, val)
 		if err != nil {
 			return err
 		}
 		return nil
 	}
-	return ioutil.WriteFile(flk.Default, val, 0600)
+	return fdb.writeFile(flk.Default, val)
+}
+
+// write the value to a temporary file in the same directory and move it into
+// place, so that an interrupted write never leaves a partial record behind.
+func (fdb *fsDb) writeFile(fp string, val []byte) error {
+	f, err := os.CreateTemp(fdb.dir, ".put-*")
+	if err != nil {
+		return err
+	}
+	tmp := f.Name()
+	_, err = f.Write(val)
+	if err != nil {
+		f.Close()
+		os.Remove(tmp)
+		return err
+	}
+	err = f.Close()
+	if err != nil {
+		os.Remove(tmp)
+		return err
+	}
+	err = os.Rename(tmp, fp)
+	if err != nil {
+		os.Remove(tmp)
+	}
+	return err
 }
 
 // Close implements the Db interface.
